@@ -5,6 +5,8 @@ import Proofs.C06.Regroup
 import Proofs.C06.RegroupConv
 import Proofs.C06.Base58
 import Proofs.C06.Address
+import Proofs.C06.TwoErr
+import Proofs.C06.KeyText
 /-!
 # C06 — text encodings and addresses round-trip and accept exactly what the specs accept
 
@@ -84,9 +86,23 @@ theorem bech32_roundtrip_by_version (hrp : List Nat) (ver : Nat) (rest : List Na
 
 example : encodeNat [98, 99] [0, 1, 2] none = .ok ("bc1qpz58kw9e".toList.map Char.toNat) := by decide
 
-/- NOT proved (`bch_four_errors_partial` would be its name): the full BCH guarantee of BIP173 —
-   any error pattern touching at most 4 characters of a string of at most 90 characters is detected.
-   It needs the BCH bound over GF(1024) (not in Mathlib) or a 2·10¹² case enumeration. -/
+/-- T3 (two substitutions): two value sequences of ANY length that differ in two positions at most 1023
+    values apart (1022 values in between — every address, whose expanded length is about 100) never share a
+    checksum: any corruption of one or two characters of the data part is refused. Proved from the residue
+    table x^k·d ∉ {0..31} for k = 1..1022, d = 1..31 (`decide +kernel`), lifted by linearity and the trivial
+    kernel of the zero-input step. -/
+theorem two_substitutions_detected (pre mid post : List Nat) (v1 v1' v2 v2' m : Nat)
+    (hmid : ∀ x ∈ mid, x < 2 ^ 30) (hpost : ∀ x ∈ post, x < 2 ^ 30)
+    (h1 : v1 < 32) (h1' : v1' < 32) (h2 : v2 < 32) (h2' : v2' < 32) (hne : v1 ≠ v1') (hw : mid.length < 1022)
+    (h : Bech32.polymod (pre ++ v1 :: (mid ++ v2 :: post)) = m) :
+    Bech32.polymod (pre ++ v1' :: (mid ++ v2' :: post)) ≠ m := by
+  intro h'
+  exact two_substitutions pre mid post v1 v1' v2 v2' hmid hpost h1 h1' h2 h2' hne hw (h.trans h'.symm)
+
+/- NOT proved (`bch_four_errors_partial` would be its name): BIP173's full guarantee — any error pattern
+   touching 3 or 4 characters of a string of at most 90 characters is detected. One and two substitutions
+   (and adjacent transpositions) are theorems above; three and four need the BCH bound over GF(1024) (not in
+   Mathlib) or an enumeration of about 2·10¹² residue combinations, out of reach of `decide`. -/
 
 -- non-vacuity: a real checksum ("a12uel5l" of BIP173: hrp "a", no data), and what the theorems say about it
 example : Bech32.polymod (hrpExpand [97] ++ [10, 28, 25, 31, 20, 31]) = 1 := by decide
@@ -218,5 +234,33 @@ theorem base58_address_roundtrip (H : Bytes → Bytes) (hH : ∀ x, 4 ≤ (H x).
   h160_roundtrip H hH net hn kind hk h160 hl
 
 example : Address.programOk 0 20 = true ∧ Address.programOk 0 21 = false ∧ Address.programOk 16 40 = true := by decide
+
+/-! ## WIF and extended-key text (Base58Check envelope around fixed payload layouts) -/
+open Btc.KeyText Btc.Address Gen.Net in
+/-- T6 (WIF layout, both directions): prefix ‖ key ‖ optional 0x01 splits into (key, compressed flag), and a
+    payload the splitter accepts is exactly that concatenation with a key of the curve's size. -/
+theorem wif_payload_lawful (nSize : Nat) :
+    (∀ pre key c, pre.length = 1 → key.length = nSize → wifSplit nSize (wifPayload pre key c) = .ok (key, c)) ∧
+    (∀ p key c, wifSplit nSize p = .ok (key, c) →
+      p = wifPayload (p.take 1) key c ∧ key.length = nSize ∧ (p.take 1).length = 1) :=
+  ⟨fun pre key c hp hk => wifSplit_payload nSize pre key c hp hk, fun p key c h => wifSplit_canonical nSize p key c h⟩
+
+open Btc.KeyText Btc.Address Gen.Net in
+/-- T6 (WIF text round trip): every network of the table, every key 0 < q < n fitting the key size, both
+    compression flags: the WIF decodes to the same key and flag on the first network sharing the prefix. -/
+theorem wif_text_roundtrip (H : Bytes → Bytes) (hH : ∀ x, 4 ≤ (H x).length) (net : Network) (hn : net ∈ NETWORKS)
+    (nSize n q : Nat) (c : Bool) (hs : nSize ≤ 50) (hq : 0 < q ∧ q < n) (hfit : q < 256 ^ nSize) :
+    ∃ m, networkFrom (·.wif) net.wif = some m ∧
+      wifDecode H nSize n (wifEncode H net nSize q c) = .ok (q, m.name, c) :=
+  wif_roundtrip H hH net hn nSize n q c hs hq hfit
+
+/-- T6 (xkey text round trip): every well-formed 78-byte extended-key record (C05's lawful `xkey` codec:
+    version 4, depth 1, fingerprint 4, index 4, chain code 32, key 33) is written within the 112-character
+    cap (58^112 > 256^82, checked for every number of leading zeros) and reads back field by field. -/
+theorem xkey_text_roundtrip (H : Bytes → Bytes) (hH : ∀ x, (H x).length = 32) (k : Wire.XKey)
+    (hv : Wire.xkey.valid k) :
+    KeyText.xkeyDecode H (KeyText.xkeyEncode H k) = .ok k ∧
+      (KeyText.xkeyEncode H k).length ≤ Gen.Base58.MAX_LENGTH :=
+  KeyText.xkey_roundtrip H hH k hv
 
 end Props.C06
